@@ -4,6 +4,11 @@ package tx_pool
 
 // Access-only helpers for check C18: lock probes and the reactor's message decoder.
 
+import (
+	"github.com/kardiachain/go-kardia/kai/events"
+	"github.com/kardiachain/go-kardia/mainchain/fetcher"
+)
+
 // VerifC18TryLock reports whether the pool's mutex could be taken (and releases it again).
 func (pool *TxPool) VerifC18TryLock() bool {
 	if !pool.mu.TryLock() {
@@ -40,3 +45,18 @@ func (txR *Reactor) VerifC18Known(id string) bool {
 	}
 	return false
 }
+
+// VerifC18Fetcher is the reactor's transaction fetcher.
+func (txR *Reactor) VerifC18Fetcher() *fetcher.TxFetcher { return txR.txFetcher }
+
+// VerifC18StartGuarded does what OnStart does (subscribe to the pool's new-transaction feed, start the
+// fetcher) with the fetcher's real loop under a recover that reports instead of killing the process.
+// The reactor itself is not marked running (Receive, AddPeer and RemovePeer do not look at that flag).
+func (txR *Reactor) VerifC18StartGuarded(onPanic func(p interface{}, stack string)) {
+	txR.txsCh = make(chan events.NewTxsEvent, txChanSize)
+	txR.txsSub = txR.txpool.SubscribeNewTxsEvent(txR.txsCh)
+	fetcher.VerifC18RunLoop(txR.txFetcher, onPanic)
+}
+
+// VerifC18StopGuarded is OnStop.
+func (txR *Reactor) VerifC18StopGuarded() { txR.OnStop() }
